@@ -98,3 +98,34 @@ func SimGroupRaw(height uint64) []byte {
 	v, _ := groupChainImpl.groups.Get(generateKey(height))
 	return v
 }
+
+// SimSyncMerge does with a chain piece fetched from a peer what the sync processor does with it
+// (readyOnFork / triggerOnFork / tryTriggerOnChain): a fork store rooted at the common ancestor, every
+// block verified and executed on the fork, then the fork merged into the chain if its weight allows,
+// and the fork store destroyed. Returns how many blocks passed the fork's verification and whether the
+// merge was attempted.
+func SimSyncMerge(ancestor *types.Block, blocks []*types.Block) (verified int, tried bool) {
+	chain := blockChainImpl
+	fork := newBlockChainFork(*ancestor)
+	for i, b := range blocks {
+		fork.rcv(b, i == len(blocks)-1)
+	}
+	fork.triggerOnFork(nil)
+	for _, b := range blocks {
+		if fork.getBlockByHash(b.Header.Hash) != nil {
+			verified++
+		}
+	}
+	if fork.latestBlock.TotalQN >= chain.latestBlock.TotalQN {
+		tried = true
+		var paused uint64
+		for i := 0; i < len(blocks)+2; i++ {
+			if fork.triggerOnChain(chain) || paused == fork.current {
+				break
+			}
+			paused = fork.current
+		}
+	}
+	fork.destroy()
+	return
+}
